@@ -753,6 +753,9 @@ def run(ctx):
                            "(the code never accepts one: no arc key is negative)")
     ctx.assumptions.append("integer data: travel times, window bounds, demands, costs, capacity are ints or inf, so float rounding plays no role")
 
+    from props import c06_depot
+    n_depot = c06_depot.run_stream(ctx, 40 if ctx.quick else 600)      # depot chosen after nodes and arcs exist
+
     reported = set()
 
     def report(cap, init, ops, msg, sig):
